@@ -66,14 +66,21 @@ SPEC = {
     ],
     "units": _units_spec,
     "floors": {
-        "quick": dict([("_distinct_nontrivial", 8000), ("op.swap_rows.row_index_ge_ncols", 3000), ("obs.forced_while_lazy_pending", 3000),
-                       ("op.additive_while_lazy_pending", 3000), ("cmp.get_row", 100000), ("op.erase_empty_row", 500)] +
-                      [(ct + ".into_empty_target", 200) for ct in _CT] +
-                      [(ct + ".coef_zero", 200) for ct in _CT] +
-                      [(ct + ".zero_absent_then_created", 100) for ct in _CT if ct != "NAIVE_VECTOR"]),
-        "thorough": dict([("_distinct_nontrivial", 100000)] +
-                         [(ct + ".into_empty_target", 5000) for ct in _CT] +
-                         [(ct + ".zero_absent_then_created", 2000) for ct in _CT]),
+        # roughly half of what a normal quick run measures (seed 1: 48000 cases, 1.46M steps)
+        "quick": dict([("_distinct_nontrivial", 19000), ("steps", 700000), ("cmp.get_row", 1500000), ("cmp.get_content", 2300000),
+                       ("op.swap_rows.row_index_ge_ncols", 20000), ("op.swap_rows.fresh_row", 11000),
+                       ("obs.forced_while_lazy_pending", 35000), ("op.additive_while_lazy_pending", 12000),
+                       ("op.erase_empty_row", 5000), ("op.remove_column", 7000), ("op.make_identical_to_other_class", 6000),
+                       ("op.add_to.range_vector", 50000), ("op.multiply_source_and_add_to.range_column", 12000)] +
+                      [(ct + ".into_empty_target", 12000) for ct in _CT] +
+                      [(ct + ".scaled_source_into_empty_target", 3500) for ct in _CT] +
+                      [(ct + ".coef_zero", 7500) for ct in _CT] +
+                      [(ct + ".zero_entry_absent", 1200) for ct in _CT] +
+                      [(ct + ".zero_absent_then_created", 200) for ct in _CT]),
+        "thorough": dict([("_distinct_nontrivial", 300000), ("steps", 20000000), ("cmp.get_row", 30000000)] +
+                         [(ct + ".into_empty_target", 150000) for ct in _CT] +
+                         [(ct + ".coef_zero", 90000) for ct in _CT] +
+                         [(ct + ".zero_absent_then_created", 3000) for ct in _CT]),
     },
     "exhaustive": {"quick": False, "thorough": False},
     "manifest": {
